@@ -53,6 +53,13 @@ module Coq__1 = struct
 end
 include Coq__1
 
+(** val mul : nat -> nat -> nat **)
+
+let rec mul n0 m =
+  match n0 with
+  | O -> O
+  | S p -> add m (mul p m)
+
 type positive =
 | XI of positive
 | XO of positive
@@ -1884,3 +1891,278 @@ let label_classes f bc =
 
 let label f bc =
   renumber (Zneg XH) (label_classes f bc)
+
+(** val remove_centre : arr -> arr **)
+
+let remove_centre bc =
+  { shape = bc.shape; data =
+    (updZ bc.data (ravel bc.shape (centre bc.shape)) Z0) }
+
+(** val better : bool -> z -> z -> bool **)
+
+let better is_min v cur =
+  if is_min then Z.ltb v cur else Z.gtb v cur
+
+(** val locmm_at : bool -> arr -> arr -> z list -> bool **)
+
+let locmm_at is_min f bc p =
+  forallb (fun e -> negb (better is_min (getn f p (fst e)) (aget f p)))
+    (entries true bc)
+
+(** val locmm : bool -> arr -> arr -> z list **)
+
+let locmm is_min f bc =
+  map (fun p ->
+    if locmm_at is_min f (remove_centre bc) p then Zpos XH else Z0)
+    (all_positions f.shape)
+
+(** val locmm_spec : bool -> arr -> arr -> z list -> bool **)
+
+let locmm_spec is_min f bc p =
+  forallb (fun k ->
+    (||) ((||) (Z.eqb (aget bc k) Z0) (list_eqb k (centre bc.shape)))
+      (negb
+        (better is_min
+          (aget f (clampos f.shape (padd p (psub k (centre bc.shape)))))
+          (aget f p)))) (all_positions bc.shape)
+
+(** val nbr_offsets : arr -> z list list **)
+
+let nbr_offsets bc =
+  map fst (entries true (remove_centre bc))
+
+(** val flood_unmark :
+    nat -> z list -> z list list -> z list -> z list list -> z list **)
+
+let rec flood_unmark fuel sh offs marks stack =
+  match fuel with
+  | O -> marks
+  | S k ->
+    (match stack with
+     | [] -> marks
+     | p :: rest ->
+       let (marks', stack') =
+         fold_left (fun ms off ->
+           let np = padd p off in
+           if (&&) (in_shapeb sh np)
+                (negb (Z.eqb (nthZ Z0 (fst ms) (ravel sh np)) Z0))
+           then ((updZ (fst ms) (ravel sh np) Z0), (np :: (snd ms)))
+           else ms) offs (marks, rest)
+       in
+       flood_unmark k sh offs marks' stack')
+
+(** val weakly_better : bool -> z -> z -> bool **)
+
+let weakly_better is_min v cur =
+  if is_min then Z.leb v cur else Z.geb v cur
+
+(** val regmm_step :
+    bool -> arr -> z list list -> z list -> z list -> z list **)
+
+let regmm_step is_min f offs marks p =
+  let sh = f.shape in
+  if Z.eqb (nthZ Z0 marks (ravel sh p)) Z0
+  then marks
+  else if existsb (fun off ->
+            let np = padd p off in
+            (&&)
+              ((&&) (in_shapeb sh np)
+                (Z.eqb (nthZ Z0 marks (ravel sh np)) Z0))
+              (weakly_better is_min (aget f np) (aget f p))) offs
+       then flood_unmark (add (mul (S (S O)) (length marks)) (S (S O))) sh
+              offs (updZ marks (ravel sh p) Z0) (p :: [])
+       else marks
+
+(** val regmm : bool -> arr -> arr -> z list **)
+
+let regmm is_min f bc =
+  fold_left (regmm_step is_min f (nbr_offsets bc)) (all_positions f.shape)
+    (locmm is_min f bc)
+
+(** val inimg_nbrs : arr -> z list list -> z list -> z list list **)
+
+let inimg_nbrs f offs p =
+  filter (in_shapeb f.shape) (map (padd p) offs)
+
+(** val plateau_pairs : arr -> z list list -> (z * z) list **)
+
+let plateau_pairs f offs =
+  flat_map (fun p ->
+    flat_map (fun q ->
+      if Z.eqb (aget f q) (aget f p)
+      then ((ravel f.shape p), (ravel f.shape q)) :: []
+      else []) (inimg_nbrs f offs p)) (all_positions f.shape)
+
+(** val plateau_classes : arr -> z list list -> z list **)
+
+let plateau_classes f offs =
+  fold_left (fun cls ij -> qf_join cls (fst ij) (snd ij))
+    (plateau_pairs f offs) (zseq Z0 (length f.data))
+
+(** val regmm_spec : bool -> arr -> arr -> z list **)
+
+let regmm_spec is_min f bc =
+  let offs = nbr_offsets bc in
+  let cls = plateau_classes f offs in
+  let ok = fun q ->
+    forallb (fun r -> negb (better is_min (aget f r) (aget f q)))
+      (inimg_nbrs f offs q)
+  in
+  map (fun p ->
+    if forallb (fun q ->
+         (||)
+           (negb
+             (Z.eqb (nthZ Z0 cls (ravel f.shape q))
+               (nthZ Z0 cls (ravel f.shape p)))) (ok q))
+         (all_positions f.shape)
+    then Zpos XH
+    else Z0) (all_positions f.shape)
+
+(** val flood_mark :
+    nat -> arr -> z list list -> z list -> z list list -> z list **)
+
+let rec flood_mark fuel ref offs marks stack =
+  match fuel with
+  | O -> marks
+  | S k ->
+    (match stack with
+     | [] -> marks
+     | p :: rest ->
+       let sh = ref.shape in
+       let (marks', stack') =
+         fold_left (fun ms off ->
+           let np = padd p off in
+           if (&&) ((&&) (in_shapeb sh np) (Z.eqb (aget ref np) Z0))
+                (Z.eqb (nthZ Z0 (fst ms) (ravel sh np)) Z0)
+           then ((updZ (fst ms) (ravel sh np) (Zpos XH)), (np :: (snd ms)))
+           else ms) offs (marks, rest)
+       in
+       flood_mark k ref offs marks' stack')
+
+(** val on_border : z list -> z list -> bool **)
+
+let on_border sh p =
+  existsb (fun dp ->
+    (||) (Z.eqb (snd dp) Z0) (Z.eqb (snd dp) (Z.sub (fst dp) (Zpos XH))))
+    (combine sh p)
+
+(** val close_holes : arr -> arr -> z list **)
+
+let close_holes ref bc =
+  let sh = ref.shape in
+  let seeds =
+    filter (fun p -> (&&) (on_border sh p) (Z.eqb (aget ref p) Z0))
+      (all_positions sh)
+  in
+  let marks0 =
+    map (fun p ->
+      if (&&) (on_border sh p) (Z.eqb (aget ref p) Z0) then Zpos XH else Z0)
+      (all_positions sh)
+  in
+  let marks =
+    flood_mark (add (mul (S (S O)) (length ref.data)) (S (S O))) ref
+      (map fst (entries true (remove_centre bc))) marks0 seeds
+  in
+  map (fun m -> if Z.eqb m Z0 then Zpos XH else Z0) marks
+
+(** val bg_pairs : arr -> z list list -> (z * z) list **)
+
+let bg_pairs ref offs =
+  flat_map (fun p ->
+    if Z.eqb (aget ref p) Z0
+    then flat_map (fun q ->
+           if Z.eqb (aget ref q) Z0
+           then ((ravel ref.shape p), (ravel ref.shape q)) :: []
+           else []) (inimg_nbrs ref offs p)
+    else []) (all_positions ref.shape)
+
+(** val close_holes_spec : arr -> arr -> z list **)
+
+let close_holes_spec ref bc =
+  let sh = ref.shape in
+  let offs = map fst (entries true (remove_centre bc)) in
+  let cls =
+    fold_left (fun c ij -> qf_join c (fst ij) (snd ij)) (bg_pairs ref offs)
+      (zseq Z0 (length ref.data))
+  in
+  let border_bg =
+    filter (fun p -> (&&) (on_border sh p) (Z.eqb (aget ref p) Z0))
+      (all_positions sh)
+  in
+  map (fun p ->
+    if (&&) (Z.eqb (aget ref p) Z0)
+         (existsb (fun b ->
+           Z.eqb (nthZ Z0 cls (ravel sh b)) (nthZ Z0 cls (ravel sh p)))
+           border_bg)
+    then Z0
+    else Zpos XH) (all_positions sh)
+
+(** val margin_ok : z -> z -> z -> bool **)
+
+let margin_ok dim b x =
+  (&&) (Z.leb (Z.quot b (Zpos (XO XH))) x)
+    (Z.leb (Z.quot b (Zpos (XO XH))) (Z.sub (Z.sub dim x) (Zpos XH)))
+
+(** val hm_inside : z list -> z list -> z list -> bool **)
+
+let rec hm_inside sh bsh p =
+  match sh with
+  | [] -> true
+  | d :: sh' ->
+    (match sh' with
+     | [] ->
+       (match bsh with
+        | [] -> true
+        | b :: bsh' ->
+          (match bsh' with
+           | [] ->
+             (match p with
+              | [] -> true
+              | x :: p' ->
+                (match p' with
+                 | [] ->
+                   (&&)
+                     ((&&) (margin_ok d b (Z.quot b (Zpos (XO XH))))
+                       (Z.leb (Z.quot b (Zpos (XO XH))) x))
+                     (Z.leb x (Z.sub (Z.add (Z.quot b (Zpos (XO XH))) d) b))
+                 | _ :: _ -> (&&) (margin_ok d b x) (hm_inside sh' bsh' p')))
+           | _ :: _ ->
+             (match p with
+              | [] -> true
+              | x :: p' -> (&&) (margin_ok d b x) (hm_inside sh' bsh' p'))))
+     | _ :: _ ->
+       (match bsh with
+        | [] -> true
+        | b :: bsh' ->
+          (match p with
+           | [] -> true
+           | x :: p' -> (&&) (margin_ok d b x) (hm_inside sh' bsh' p'))))
+
+(** val hm_match : arr -> arr -> z list -> bool **)
+
+let hm_match f t p =
+  forallb (fun k ->
+    (||) (Z.eqb (aget t k) (Zpos (XO XH)))
+      (Z.eqb (aget f (padd p (psub k (centre t.shape)))) (aget t k)))
+    (all_positions t.shape)
+
+(** val hitmiss : arr -> arr -> z list **)
+
+let hitmiss f t =
+  map (fun p ->
+    if (&&) (hm_inside f.shape t.shape p) (hm_match f t p)
+    then Zpos XH
+    else Z0) (all_positions f.shape)
+
+(** val template_inside : arr -> arr -> z list -> bool **)
+
+let template_inside f t p =
+  forallb (fun k -> in_shapeb f.shape (padd p (psub k (centre t.shape))))
+    (all_positions t.shape)
+
+(** val hitmiss_spec : arr -> arr -> z list **)
+
+let hitmiss_spec f t =
+  map (fun p ->
+    if (&&) (template_inside f t p) (hm_match f t p) then Zpos XH else Z0)
+    (all_positions f.shape)
